@@ -23,6 +23,17 @@ CHECKS = {
           "Exhaustive over Sigma^<=2 (39 symbols incl. quotes, backslashes, controls, invalid UTF-8, JSON fragments) x 31 positions x 2 "
           "encoder entry points; length 3 on a rotation (thorough: all).  Term/kind correctness of every property is checked by C05.",
           TRUST, "DESIGN.md §4 C02"),
+ "C04": C("TLA+ Hostile.tla: grammar of hostile documents (type x term x 34 JSON shapes x nesting) and the outcome alphabet of decode and "
+          "follow-up calls (no transition to panic/hang), model-checked; TLC prints every cell's document; all decoding entry points driven in "
+          "child processes under recover(), a watchdog and an allocation measurement; HostileTrace.tla judges outcomes and cost bounds",
+          "Every cell of the grammar plus byte-level damage (empty, all one-byte inputs, all prefixes of sample documents, gob truncations and "
+          "seeded bit flips) at the JSON/text/gob entry points (73), with follow-ups on every returned value.",
+          TRUST + " 'All byte strings' is approximated by the grammar plus bounded byte-level damage.", "DESIGN.md §4 C04"),
+ "C05": C("TLA+ JsonCodec.tla: tagged JSON trees, Pres (the documents an independent writer may produce), Dec (what a document denotes, "
+          "table-driven from Vocab.tla), pipeline machine document->decode->re-encode->decode with ReadsWhatItSays/Fixpoint/WriterOK model-checked; "
+          "documents written by encoding/json and the 19 mock documents with mutations run through the real decoder/encoder; JsonCodecTrace.tla judges",
+          "Every distinct presentation of the OneField/Nested1/Full case values; mocks and 4 structure-preserving mutations; decode compared "
+          "with Dec(doc), second trip, byte fixpoint, and the written form against the term/kind rules.", TRUST, "DESIGN.md §4 C05"),
  "C06": C("TLA+ Text.tla pipeline machine store->encode->decode (RoundTrip/WireValid invariants); all strings of Sigma^<=3 through the real "
           "JSON and gob codecs in 5 text properties x 4 forms; TextTrace.tla judges bytes and tags",
           "Exhaustive over Sigma^<=2 for all property/form/codec combinations, Sigma^3 on content and a rotation of the rest.",
@@ -31,6 +42,10 @@ CHECKS = {
           "the whole request space replayed on the registry, JSON and gob decoders with hooks unset and set; DispatchTrace.tla judges",
           "Exhaustive: every vocabulary/generic/empty/outsider name x 7 channels x 2 hook settings executed on the real code.",
           TRUST, "DESIGN.md §4 C07"),
+ "C08": C("TLA+ Views.tla: SafeView rule evaluated by TLC on layout/site facts extracted from the current tree with go/types, struct terms "
+          "against Vocab!Props; every To* helper x struct type x form executed under the runtime pointer checker in child processes",
+          "All conversion sites found statically (48) and all 14x14x2 dynamic combinations: field-faithful reads, writes through pointer views, "
+          "no view wider than its source, no checkptr abort.", TRUST + " Layouts are gc/amd64.", "DESIGN.md §4 C08"),
  "C09": C("TLA+ law module Equality.tla (laws chosen from the pair by the spec; consistency and non-vacuity model-checked); TLC generates "
           "pairs per law from the case families; real ItemsEqual replayed incl. random deep values; EqualityTrace.tla judges",
           "All case values against themselves (reflexivity), single-property identity mutations in both orders, id/type variants, "
